@@ -898,12 +898,13 @@ let run_net (path : string) =
                     let b = min 6 e in
                     "Error " ^ esc (String.sub t b (e - b)) end
                   else "Other" end end
-        | ["disc"; sid] ->
+        | [("disc" | "drop") as how; sid] ->
+          (* drop: the connection is cut without a close handshake; the server's end-of-connection code is the same *)
           let sid = int_of_string sid in
           acting := sid;
           let cn = nth sid in
           if cn.nst <> 0 then "DEAD" else begin
-            n := conn_closed !n (nat_of_int cn.msid); cn.nst <- 1; cn.items <- []; "Left" end
+            n := conn_closed !n (nat_of_int cn.msid); cn.nst <- 1; cn.items <- []; if how = "disc" then "Left" else "Dropped" end
         | ["http"; body] ->
           let b = cl_of_string (unhex body) in
           if not (utf8_valid b) then "Http 500 {}" else begin
